@@ -1,15 +1,17 @@
-import Gv.Model.Sites
+import Gv.Proofs.SitesRefThm
+import Gv.Proofs.SitesSplit
+import Gv.Proofs.SitesInverse
 /-!
 # C04 — site extraction and coordinates address exactly the requested columns
 
 Theorems about `lean/Gv/Model/Sites.lean` for all alignments and all integer arguments.
-`Rect rows L`: every row has the cached length `L` (the C01 invariant of an alignment).
+`Rect rows L`: every row has the cached length `L` (the C01 invariant of an alignment).  The vocabulary
+(`Rect`, `nres`, `skipTo`, `window`, `seg`, `reinterleaveSeq`, `PartInv`) is in `Gv/Spec/Sites.lean`, the
+longer developments in `Gv/Proofs/Sites*.lean`.
 -/
 namespace Gv.Props.C04
-open Gv Gv.Model
+open Gv Gv.Model Gv.Spec.Sites Gv.Proofs.SitesRef
 
-/-- rectangular alignment with cached length `L` (`-1` iff empty) -/
-def Rect (rows : SRows) (L : Int) : Prop := (rows = [] ∧ L = -1) ∨ (rows ≠ [] ∧ 0 ≤ L ∧ ∀ r ∈ rows, (r.2.length : Int) = L)
 
 /-! ## range extraction -/
 
@@ -213,194 +215,6 @@ theorem inversePositions_error_iff (L : Int) (sites : List Int) :
 
 /-! ## reference coordinates -/
 
-/-- number of residues (non-gap characters) -/
-def nres (s : Seq) : Nat := (s.filter (· != GAP)).length
-
-/-- index of the `k`-th (0-based) residue -/
-def skipTo : Nat → Seq → Nat
-  | _, [] => 0
-  | k, c :: t => if c = GAP then 1 + skipTo k t else if k = 0 then 0 else 1 + skipTo (k - 1) t
-
-/-- length of the shortest prefix holding `m ≥ 1` residues -/
-def spanOf : Nat → Seq → Nat
-  | _, [] => 0
-  | m, c :: t => if c = GAP then 1 + spanOf m t else if m ≤ 1 then 1 else 1 + spanOf (m - 1) t
-
-private theorem refLoop_phase2 (rs rl : Nat) : ∀ (t : Seq) (seen ng as al : Nat), rs < seen → seen < rs + rl →
-    (refLoop rs rl t seen ng as al).2 = (as, al + spanOf (rs + rl - seen) t) := by
-  intro t
-  induction t with
-  | nil => intro seen ng as al _ _; simp [refLoop, spanOf]
-  | cons c t ih =>
-    intro seen ng as al h1 h2
-    by_cases hc : c = GAP
-    · subst hc
-      have e1 : ¬ (seen ≤ rs) := by omega
-      have e2 : ¬ (seen ≥ rs + rl) := by omega
-      simp only [refLoop, bne_self_eq_false, Bool.false_eq_true, if_false, e1, e2, spanOf, if_true]
-      rw [ih seen (ng + 1) as (al + 1) h1 h2]
-      simp; omega
-    · have hb : (c != GAP) = true := by simpa using hc
-      have e1 : ¬ (seen + 1 ≤ rs) := by omega
-      simp only [refLoop, hb, if_true, e1, if_false, spanOf, hc]
-      by_cases e2 : seen + 1 ≥ rs + rl
-      · have : rs + rl - seen ≤ 1 := by omega
-        simp [e2, this]
-      · have : ¬ (rs + rl - seen ≤ 1) := by omega
-        simp only [e2, if_false, this]
-        rw [ih (seen + 1) ng as (al + 1) (by omega) (by omega)]
-        have : rs + rl - (seen + 1) = rs + rl - seen - 1 := by omega
-        rw [this]; simp; omega
-
-private theorem refLoop_phase1 (rs rl : Nat) (hrl : 0 < rl) : ∀ (t : Seq) (seen ng as : Nat), seen ≤ rs →
-    (refLoop rs rl t seen ng as 0).2 =
-      (as + skipTo (rs - seen) t, spanOf rl (t.drop (skipTo (rs - seen) t))) := by
-  intro t
-  induction t with
-  | nil => intro seen ng as _; simp [refLoop, skipTo, spanOf]
-  | cons c t ih =>
-    intro seen ng as h1
-    by_cases hc : c = GAP
-    · subst hc
-      simp only [refLoop, bne_self_eq_false, Bool.false_eq_true, if_false, h1, if_true, skipTo]
-      rw [ih seen (ng + 1) (as + 1) h1]
-      have : 1 + skipTo (rs - seen) t = skipTo (rs - seen) t + 1 := by omega
-      rw [this, List.drop_succ_cons]
-      simp; omega
-    · have hb : (c != GAP) = true := by simpa using hc
-      simp only [refLoop, hb, if_true, skipTo, hc, if_false]
-      by_cases e1 : seen + 1 ≤ rs
-      · have hk : ¬ (rs - seen = 0) := by omega
-        simp only [e1, if_true, hk, if_false]
-        rw [ih (seen + 1) ng (as + 1) e1]
-        have e : rs - (seen + 1) = rs - seen - 1 := by omega
-        have : 1 + skipTo (rs - seen - 1) t = skipTo (rs - seen - 1) t + 1 := by omega
-        rw [e, this, List.drop_succ_cons]
-        simp; omega
-      · have hk : rs - seen = 0 := by omega
-        have hs : seen = rs := by omega
-        simp only [e1, if_false, hk, if_true, List.drop_zero, spanOf, hc]
-        by_cases e2 : seen + 1 ≥ rs + rl
-        · have : rl ≤ 1 := by omega
-          simp [e2, this]
-        · have hn : ¬ (rl ≤ 1) := by omega
-          simp only [e2, if_false, hn]
-          have := refLoop_phase2 rs rl t (seen + 1) ng as 1 (by omega) (by omega)
-          rw [this]
-          have : rs + rl - (seen + 1) = rl - 1 := by omega
-          rw [this]; simp
-
-/-- the gap counter: either enough residues were met (the loop broke out), or every gap was counted -/
-private theorem refLoop_ngaps (rs rl : Nat) : ∀ (t : Seq) (seen ng as al : Nat),
-    rs + rl ≤ seen + nres t ∨ (refLoop rs rl t seen ng as al).1 = ng + (t.length - nres t) := by
-  intro t
-  induction t with
-  | nil => intro seen ng as al; right; simp [refLoop, nres]
-  | cons c t ih =>
-    intro seen ng as al
-    have hle : nres t ≤ t.length := by unfold nres; exact List.length_filter_le _ _
-    by_cases hc : c = GAP
-    · subst hc
-      have hn : nres (GAP :: t) = nres t := by simp [nres]
-      simp only [refLoop, bne_self_eq_false, Bool.false_eq_true, if_false]
-      split
-      · rcases ih seen (ng + 1) (as + 1) al with h | h
-        · left; rw [hn]; exact h
-        · right; rw [h, hn]; simp; omega
-      · split
-        · left; rw [hn]; omega
-        · rcases ih seen (ng + 1) as (al + 1) with h | h
-          · left; rw [hn]; exact h
-          · right; rw [h, hn]; simp; omega
-    · have hb : (c != GAP) = true := by simpa using hc
-      have hn : nres (c :: t) = nres t + 1 := by simp [nres, hb]
-      simp only [refLoop, hb, if_true]
-      split
-      · rcases ih (seen + 1) ng (as + 1) al with h | h
-        · left; rw [hn]; omega
-        · right; rw [h, hn]; simp
-      · split
-        · left; rw [hn]; omega
-        · rcases ih (seen + 1) ng as (al + 1) with h | h
-          · left; rw [hn]; omega
-          · right; rw [h, hn]; simp
-
-private theorem skipTo_spec : ∀ (k : Nat) (t : Seq), k < nres t →
-    skipTo k t < t.length ∧ t.getD (skipTo k t) GAP ≠ GAP ∧ nres (t.take (skipTo k t)) = k := by
-  intro k t
-  induction t generalizing k with
-  | nil => intro h; simp [nres] at h
-  | cons c t ih =>
-    intro h
-    by_cases hc : c = GAP
-    · subst hc
-      have hn : nres (GAP :: t) = nres t := by simp [nres]
-      rw [hn] at h
-      obtain ⟨a, b, d⟩ := ih k h
-      simp only [skipTo, if_true]
-      have e : 1 + skipTo k t = skipTo k t + 1 := by omega
-      rw [e]
-      refine ⟨by simp; omega, by simpa using b, ?_⟩
-      simp only [List.take_succ_cons]
-      have : nres (GAP :: t.take (skipTo k t)) = nres (t.take (skipTo k t)) := by simp [nres]
-      rw [this]; exact d
-    · have hb : (c != GAP) = true := by simpa using hc
-      have hn : nres (c :: t) = nres t + 1 := by simp [nres, hb]
-      simp only [skipTo, hc, if_false]
-      by_cases hk : k = 0
-      · subst hk
-        simp [hc, nres]
-      · simp only [hk, if_false]
-        rw [hn] at h
-        obtain ⟨a, b, d⟩ := ih (k - 1) (by omega)
-        have e : 1 + skipTo (k - 1) t = skipTo (k - 1) t + 1 := by omega
-        rw [e]
-        refine ⟨by simp; omega, by simpa using b, ?_⟩
-        simp only [List.take_succ_cons]
-        have : nres (c :: t.take (skipTo (k - 1) t)) = nres (t.take (skipTo (k - 1) t)) + 1 := by simp [nres, hb]
-        rw [this, d]; omega
-
-private theorem spanOf_spec : ∀ (m : Nat) (t : Seq), 1 ≤ m → m ≤ nres t →
-    1 ≤ spanOf m t ∧ spanOf m t ≤ t.length ∧ t.getD (spanOf m t - 1) GAP ≠ GAP ∧ nres (t.take (spanOf m t)) = m := by
-  intro m t
-  induction t generalizing m with
-  | nil => intro h1 h2; simp [nres] at h2; omega
-  | cons c t ih =>
-    intro h1 h2
-    by_cases hc : c = GAP
-    · subst hc
-      have hn : nres (GAP :: t) = nres t := by simp [nres]
-      rw [hn] at h2
-      obtain ⟨a, b, d, e⟩ := ih m h1 h2
-      simp only [spanOf, if_true]
-      have e1 : 1 + spanOf m t = spanOf m t + 1 := by omega
-      rw [e1]
-      refine ⟨by omega, by simp; omega, ?_, ?_⟩
-      · have : spanOf m t + 1 - 1 = (spanOf m t - 1) + 1 := by omega
-        rw [this]; simpa using d
-      · simp only [List.take_succ_cons]
-        have : nres (GAP :: t.take (spanOf m t)) = nres (t.take (spanOf m t)) := by simp [nres]
-        rw [this]; exact e
-    · have hb : (c != GAP) = true := by simpa using hc
-      have hn : nres (c :: t) = nres t + 1 := by simp [nres, hb]
-      simp only [spanOf, hc, if_false]
-      by_cases hm : m ≤ 1
-      · have : m = 1 := by omega
-        subst this
-        simp [hc, nres, hb]
-      · simp only [hm, if_false]
-        rw [hn] at h2
-        obtain ⟨a, b, d, e⟩ := ih (m - 1) (by omega) (by omega)
-        have e1 : 1 + spanOf (m - 1) t = spanOf (m - 1) t + 1 := by omega
-        rw [e1]
-        refine ⟨by omega, by simp; omega, ?_, ?_⟩
-        · have : spanOf (m - 1) t + 1 - 1 = (spanOf (m - 1) t - 1) + 1 := by omega
-          rw [this]; simpa using d
-        · simp only [List.take_succ_cons]
-          have : nres (c :: t.take (spanOf (m - 1) t)) = nres (t.take (spanOf (m - 1) t)) + 1 := by simp [nres, hb]
-          rw [this, e]; omega
-
-private theorem nres_append (a b : Seq) : nres (a ++ b) = nres a + nres b := by simp [nres]
 
 /-- **Reference coordinates map to the smallest alignment window whose reference residues are exactly
 the requested ones**: when `RefCoordinates(name, rs, rl)` succeeds with `(a, l)`, the reference row
@@ -479,6 +293,152 @@ theorem refCoordinates_error_of_short (rows : SRows) (name : String) (rs rl : In
     refine ⟨as, al, ?_⟩
     simp only [Out.ok.injEq, Prod.mk.injEq, true_and, decide_eq_true_eq]
     rw [hh]; omega
+
+/-! ## reference coordinates: error characterisation, minimality, residues -/
+
+/-- **`RefCoordinates` succeeds iff the reference exists, `0 ≤ rs`, `0 < rl` and the request fits in
+the ungapped reference** (every other argument is an error; the function never panics). -/
+theorem refCoordinates_ok_iff (rows : SRows) (name : String) (rs rl : Int) :
+    (∃ a l, refCoordinates rows name rs rl = .ok (a, l, false)) ↔
+      ∃ r, rows.find? (fun r => r.1 == name) = some r ∧ 0 ≤ rs ∧ 0 < rl ∧ rs + rl ≤ (nres r.2 : Int) := by
+  constructor
+  · rintro ⟨a, l, h⟩
+    obtain ⟨r, hf, h0, h1⟩ := refCoordinates_inv _ _ _ _ _ h
+    rw [refCoordinates_eval rows name rs rl r hf h0 h1] at h
+    simp only [Out.ok.injEq, Prod.mk.injEq, decide_eq_false_iff_not, Int.not_lt] at h
+    exact ⟨r, hf, h0, h1, h.2.2⟩
+  · rintro ⟨r, hf, h0, h1, h2⟩
+    rw [refCoordinates_eval rows name rs rl r hf h0 h1]
+    have : ¬ ((nres r.2 : Int) < rs + rl) := by omega
+    simp only [this, decide_false]
+    exact ⟨_, _, rfl⟩
+
+theorem refCoordinates_never_panics (rows : SRows) (name : String) (rs rl : Int) :
+    refCoordinates rows name rs rl ≠ .panic := by
+  unfold refCoordinates
+  split
+  · simp
+  · split
+    · simp
+    · split <;> simp
+
+/-- **No smaller window works**: every window `[a', a'+l')` of the reference row with the same
+residues before it (`rs`) and inside it (`rl`) contains the window returned by `RefCoordinates`. -/
+theorem refCoordinates_minimal (rows : SRows) (name : String) (rs rl a l : Int)
+    (h : refCoordinates rows name rs rl = .ok (a, l, false)) :
+    ∃ r, rows.find? (fun r => r.1 == name) = some r ∧
+      ∀ a' l' : Nat, (nres (r.2.take a') : Int) = rs → (nres ((r.2.drop a').take l') : Int) = rl →
+        (a' : Int) ≤ a ∧ a + l ≤ (a' : Int) + l' := by
+  obtain ⟨r, hf, ha, hl, hal, g1, g2, n1, n2⟩ := refCoordinates_window rows name rs rl a l h
+  refine ⟨r, hf, ?_⟩
+  intro a' l' h1 h2
+  have e : (a + l - 1).toNat = a.toNat + l.toNat - 1 := by omega
+  rw [e] at g2
+  have := window_minimal r.2 a.toNat l.toNat a' l' (by omega) (by omega) g1 g2 (by omega) (by omega)
+  omega
+
+/-- **The reference residues of the window are exactly the requested ones**: the window's residues
+are the slice `[rs, rs+rl)` of the ungapped reference. -/
+theorem refCoordinates_residues (rows : SRows) (name : String) (rs rl a l : Int)
+    (h : refCoordinates rows name rs rl = .ok (a, l, false)) :
+    ∃ r, rows.find? (fun r => r.1 == name) = some r ∧
+      (seg r.2 (a, l)).filter (· != GAP) = ((r.2.filter (· != GAP)).drop rs.toNat).take rl.toNat := by
+  obtain ⟨r, hf, ha, hl, hal, g1, g2, n1, n2⟩ := refCoordinates_window rows name rs rl a l h
+  refine ⟨r, hf, ?_⟩
+  unfold seg
+  simp only []
+  rw [window_residues]
+  congr 2 <;> omega
+
+/-- on a rectangular alignment the returned window can be cut out (`SubAlign`) and complemented
+(`InverseCoordinates`): the coordinate functions compose without a range error -/
+theorem refCoordinates_then_subAlign (rows : SRows) (L : Int) (name : String) (rs rl a l : Int) (hr : Rect rows L)
+    (h : refCoordinates rows name rs rl = .ok (a, l, false)) :
+    (∃ w, subAlign rows L a l = .ok w) ∧ (∃ c, inverseCoordinates L a l = .ok c) := by
+  obtain ⟨r, hf, ha, hl, hal, _⟩ := refCoordinates_window rows name rs rl a l h
+  have := rect_length hr (List.mem_of_find?_eq_some hf)
+  have hv : 0 ≤ a ∧ 0 ≤ l ∧ a + l ≤ L := ⟨by omega, by omega, by omega⟩
+  refine ⟨(subAlign_ok_iff rows L a l).mpr hv, ?_⟩
+  rw [inverseCoordinates_spec, if_pos hv]
+  exact ⟨_, rfl⟩
+
+/-! ## reference sites -/
+
+/-- **`RefSites` on a rectangular alignment succeeds iff the reference exists and every requested site
+is a residue index of the ungapped reference** (`0 ≤ s < nres`), and never panics. -/
+theorem refSites_ok_iff (rows : SRows) (L : Int) (hr : Rect rows L) (name : String) (sites : List Int) :
+    (∃ out, refSites rows L name sites = .ok out) ↔
+      ∃ r, rows.find? (fun r => r.1 == name) = some r ∧ ∀ s ∈ sites, 0 ≤ s ∧ s < (nres r.2 : Int) := by
+  cases hf : rows.find? (fun r => r.1 == name) with
+  | none => simp [refSites, hf]
+  | some r =>
+    rw [refSites_eval rows L name sites r hf]
+    have hl := rect_length hr (List.mem_of_find?_eq_some hf)
+    have hn := nres_le_length r.2
+    constructor
+    · rintro ⟨out, h⟩
+      split at h
+      · rename_i hall
+        exact ⟨r, rfl, fun s hs => ⟨(hall s hs).1, (hall s hs).2.2⟩⟩
+      · cases h
+    · rintro ⟨r', e, hall⟩
+      simp only [Option.some.injEq] at e
+      subst e
+      have : ∀ s ∈ sites, 0 ≤ s ∧ s < L ∧ s < (nres r.2 : Int) := by
+        intro s hs; have := hall s hs; omega
+      rw [if_pos this]
+      exact ⟨_, rfl⟩
+
+theorem refSites_never_panics (rows : SRows) (L : Int) (name : String) (sites : List Int) :
+    refSites rows L name sites ≠ .panic := by
+  unfold refSites
+  split
+  · simp
+  · split
+    · simp
+    · simp only []
+      split <;> simp
+
+/-- **`RefSites` returns exactly the alignment positions of the requested reference residues, in
+increasing order**: `p` is returned iff column `p` of the reference row holds a residue whose ungapped
+index (the number of residues before it) is one of the requested sites; every requested site is
+answered. -/
+theorem refSites_spec (rows : SRows) (L : Int) (name : String) (sites : List Int) (out : List Int)
+    (h : refSites rows L name sites = .ok out) :
+    ∃ r, rows.find? (fun r => r.1 == name) = some r ∧
+      out.Pairwise (· < ·) ∧
+      (∀ p : Int, p ∈ out ↔ 0 ≤ p ∧ p < r.2.length ∧ r.2.getD p.toNat GAP ≠ GAP ∧
+        ((nres (r.2.take p.toNat) : Nat) : Int) ∈ sites) ∧
+      (∀ s ∈ sites, ((skipTo s.toNat r.2 : Nat) : Int) ∈ out) := by
+  cases hf : rows.find? (fun r => r.1 == name) with
+  | none => simp [refSites, hf] at h
+  | some r =>
+    rw [refSites_eval rows L name sites r hf] at h
+    split at h
+    · rename_i hall
+      simp only [Out.ok.injEq] at h
+      subst h
+      refine ⟨r, rfl, refPositions_sorted sites r.2, mem_refPositions sites r.2, ?_⟩
+      intro s hs
+      have hb := hall s hs
+      have hk : s.toNat < nres r.2 := by omega
+      obtain ⟨q1, q2, q3⟩ := skipTo_spec s.toNat r.2 hk
+      rw [mem_refPositions]
+      refine ⟨by omega, by omega, by simpa using q2, ?_⟩
+      simp only [Int.toNat_natCast]
+      rw [q3]
+      have : ((s.toNat : Nat) : Int) = s := by omega
+      rw [this]; exact hs
+    · cases h
+
+/-- **`RefSites` on the contiguous request `rs, …, rs+rl-1` spans exactly the window of
+`RefCoordinates(rs, rl)`**: `rl` positions, the first is the window start, the last is the window's
+last column, all inside the window. -/
+theorem refSites_of_refCoordinates (rows : SRows) (L : Int) (name : String) (rs rl a l : Int) (hr : Rect rows L)
+    (h : refCoordinates rows name rs rl = .ok (a, l, false)) :
+    ∃ out, refSites rows L name (window rs rl) = .ok out ∧ (out.length : Int) = rl ∧
+      out.head? = some a ∧ out.getLast? = some (a + l - 1) ∧ ∀ p ∈ out, a ≤ p ∧ p < a + l :=
+  Gv.Proofs.SitesRef.refSites_of_refCoordinates rows L name rs rl a l hr h
 
 /-! ## diff to first / replace match characters -/
 
@@ -580,6 +540,210 @@ theorem addRange_never_panics (ps : PartSet) (hlen : (ps.parts.length : Int) = p
                     · simp [hp]
           exact key _ _ _ (by omega) hlen
 
+/-! ## complementary extractions reassemble the alignment -/
+
+/-- **The windows returned by `InverseCoordinates` and the requested window tile `[0, L)`**: the
+returned windows are non-empty, inside the alignment, ordered and disjoint, and a column lies in the
+requested window iff it lies in none of them. -/
+theorem inverseCoordinates_partition (L st ln : Int) (ss ls : List Int)
+    (h : inverseCoordinates L st ln = .ok (ss, ls)) :
+    ss.length = ls.length ∧
+    (∀ w ∈ ss.zip ls, 0 ≤ w.1 ∧ 0 < w.2 ∧ w.1 + w.2 ≤ L) ∧
+    (ss.zip ls).Pairwise (fun u v => u.1 + u.2 ≤ v.1) ∧
+    (∀ i : Int, 0 ≤ i → i < L → ((st ≤ i ∧ i < st + ln) ↔ ¬ ∃ w ∈ ss.zip ls, w.1 ≤ i ∧ i < w.1 + w.2)) :=
+  Gv.Proofs.SitesInverse.inverse_windows_tile L st ln ss ls h
+
+/-- **Prefix + window + suffix concatenation reproduces the alignment**: on a rectangular alignment
+every window returned by `InverseCoordinates` can be cut out with `SubAlign` (whose rows are the `seg`s,
+`subAlign_rows`), and for every row the pieces before the requested window, the window, and the pieces
+after it concatenate back to the row; the returned pieces alone are the row minus the window. -/
+theorem inverse_windows_reassemble (rows : SRows) (L st ln : Int) (ss ls : List Int) (hr : Rect rows L)
+    (h : inverseCoordinates L st ln = .ok (ss, ls)) :
+    (∀ w ∈ ss.zip ls, ∃ p, subAlign rows L w.1 w.2 = .ok p) ∧
+    (∃ p, subAlign rows L st ln = .ok p) ∧
+    ∀ x ∈ rows,
+      ((ss.zip ls).filter (fun w => decide (w.1 < st))).flatMap (seg x.2) ++ (seg x.2 (st, ln) ++
+        ((ss.zip ls).filter (fun w => decide (w.1 ≥ st + ln))).flatMap (seg x.2)) = x.2 ∧
+      (ss.zip ls).flatMap (seg x.2) = x.2.take st.toNat ++ x.2.drop (st + ln).toNat := by
+  have tile := Gv.Proofs.SitesInverse.inverse_windows_tile L st ln ss ls h
+  obtain ⟨h0, h1, h2, es, el⟩ := Gv.Proofs.SitesInverse.inverseCoordinates_eval L st ln ss ls h
+  refine ⟨?_, (subAlign_ok_iff rows L st ln).mpr ⟨h0, h1, h2⟩, ?_⟩
+  · intro w hw
+    have := tile.2.1 w hw
+    exact (subAlign_ok_iff rows L w.1 w.2).mpr ⟨by omega, by omega, by omega⟩
+  · intro x hx
+    have hl := rect_length hr hx
+    have key := Gv.Proofs.SitesInverse.segs_windows x.2 L st ln h0 h1 h2 hl
+    simp only [] at key
+    rw [← es, ← el] at key
+    have hsplit : (ss.zip ls) = (ss.zip ls).filter (fun w => decide (w.1 < st)) ++
+        (ss.zip ls).filter (fun w => decide (w.1 ≥ st + ln)) := by
+      subst es el
+      by_cases a : st > 0 <;> by_cases b : st + ln < L
+      · rw [if_pos a, if_pos b, if_pos a, if_pos b]
+        have c1 : ¬ (st + ln < st) := by omega
+        have c2 : ¬ (0 ≥ st + ln) := by omega
+        simp [a, c1, c2]
+      · rw [if_pos a, if_neg b, if_pos a, if_neg b]
+        have c2 : ¬ (0 ≥ st + ln) := by omega
+        simp [a, c2]
+      · rw [if_neg a, if_pos b, if_neg a, if_pos b]
+        have c1 : ¬ (st + ln < st) := by omega
+        simp [c1]
+      · rw [if_neg a, if_neg b, if_neg a, if_neg b]; simp
+    constructor
+    · rw [key.1, key.2]
+      have := prefix_window_suffix x.2 st.toNat ln.toNat
+      have e : (st + ln).toNat = st.toNat + ln.toNat := by omega
+      rw [e]; unfold seg; exact this
+    · conv => lhs; rw [hsplit]
+      rw [List.flatMap_append, key.1, key.2]
+
+/-- **`InversePositions` of a window is the expansion of the windows of `InverseCoordinates`**: both
+complement functions address the same columns. -/
+theorem inversePositions_of_window (L st ln : Int) (ss ls : List Int)
+    (h : inverseCoordinates L st ln = .ok (ss, ls)) :
+    inversePositions L (window st ln) = .ok ((ss.zip ls).flatMap fun (w : Int × Int) => window w.1 w.2) := by
+  obtain ⟨h0, h1, h2, es, el⟩ := Gv.Proofs.SitesInverse.inverseCoordinates_eval L st ln ss ls h
+  rw [Gv.Proofs.SitesInverse.inversePositions_window L st ln h0 h1 h2, es, el,
+    Gv.Proofs.SitesInverse.flatMap_windows L st ln h0 h2]
+
+/-- the complement of a valid site list can itself be selected: `SelectSites ∘ InversePositions`
+never fails on a rectangular alignment -/
+theorem selectSites_inversePositions_ok (rows : SRows) (L : Int) (hr : Rect rows L) (sites inv : List Int)
+    (h : inversePositions L sites = .ok inv) : ∃ r, selectSites rows L inv = .ok r := by
+  rw [selectSites_ok_iff rows L hr]
+  intro s hs
+  have := ((inversePositions_complement L sites inv h).1 s).mp hs
+  exact ⟨this.1, this.2.1⟩
+
+/-! ## transpose -/
+
+/-- **`Transpose` turns the columns into rows**: `L` rows, row `j` is named `j` and holds column `j`
+in sequence order; the result is rectangular of length "number of sequences". -/
+theorem transpose_spec (rows : SRows) (L : Int) :
+    (transpose rows L).length = L.toNat ∧
+    (∀ j, j < L.toNat → (transpose rows L)[j]? = some (toString j, rows.map fun r => r.2.getD j 0)) ∧
+    lenOf (transpose rows L) = (if 0 < L then (rows.length : Int) else -1) ∧
+    (0 < L → Rect (transpose rows L) (rows.length : Int)) :=
+  ⟨Gv.Proofs.SitesSplit.transpose_length rows L, Gv.Proofs.SitesSplit.transpose_row rows L,
+   Gv.Proofs.SitesSplit.lenOf_transpose rows L, Gv.Proofs.SitesSplit.transpose_rect rows L⟩
+
+/-- **Transposing twice reproduces the residues of a rectangular alignment** (with at least one
+column): same number of rows, row `i` renamed `i` (names are site indices after a transposition), every
+sequence unchanged.  An alignment without columns (`L ≤ 0`: empty, or rows of length 0) comes back
+empty: see `transpose_twice_drops_zero_length_rows`. -/
+theorem transpose_transpose (rows : SRows) (L : Int) (hr : Rect rows L) :
+    let tt := transpose (transpose rows L) (lenOf (transpose rows L))
+    (0 < L → tt.map Prod.snd = rows.map Prod.snd ∧
+             tt.map Prod.fst = (List.range rows.length).map toString ∧ Rect tt L) ∧
+    (L ≤ 0 → tt = []) := by
+  refine ⟨?_, Gv.Proofs.SitesSplit.transpose_transpose_empty rows L⟩
+  intro hL
+  have e := Gv.Proofs.SitesSplit.transpose_transpose_eq rows L hr hL
+  show _ ∧ _ ∧ Rect (transpose (transpose rows L) (lenOf (transpose rows L))) L
+  rw [e]
+  have hs : ((List.range rows.length).map fun i => (toString i, (rows.getD i ("", [])).2)).map Prod.snd = rows.map Prod.snd := by
+    rw [List.map_map]
+    conv => rhs; rw [← Gv.Proofs.SitesLists.map_getD_range rows ("", []), List.map_map]
+    rfl
+  refine ⟨hs, by simp [List.map_map, Function.comp_def], ?_⟩
+  rcases hr with ⟨e0, e1⟩ | ⟨hne, h0, hl⟩
+  · omega
+  · right
+    refine ⟨?_, h0, ?_⟩
+    · intro hc
+      have : ((List.range rows.length).map fun i => (toString i, (rows.getD i ("", [])).2)).length = 0 := by rw [hc]; rfl
+      simp at this
+      exact hne this
+    · intro r hrm
+      have : r.2 ∈ rows.map Prod.snd := by rw [← hs]; exact List.mem_map_of_mem hrm
+      obtain ⟨y, hy, e⟩ := List.mem_map.mp this
+      rw [← e]; exact hl y hy
+
+/-- the boundary the statement above excludes, on the smallest input: one row of length 0 -/
+theorem transpose_twice_drops_zero_length_rows :
+    Rect [("a", [])] 0 ∧ transpose (transpose [("a", [])] 0) (lenOf (transpose [("a", [])] 0)) = [] :=
+  ⟨Or.inr ⟨by simp, by omega, by simp⟩, by decide⟩
+
+/-! ## split -/
+
+/-- the partition table stays well formed: one entry per site, each unassigned or the index of a
+registered name — for every sequence of `AddRange` calls (modulo/codon ranges included) -/
+theorem newPartSet_partInv (L : Int) : PartInv (newPartSet L) := Gv.Proofs.SitesSplit.newPartSet_inv L
+
+theorem addRange_partInv (ps : PartSet) (h : PartInv ps) (name : String) (start stop modulo : Int) :
+    PartInv (addRange ps name start stop modulo).1 :=
+  Gv.Proofs.SitesSplit.addRange_inv ps h name start stop modulo
+
+/-- **Re-interleaving the blocks of a total partition gives back the alignment**: when `Split`
+succeeds on a rectangular alignment with a well-formed table in which every site is assigned, there is
+one block per partition name, every non-empty block keeps the names and the row order, and for every
+sequence, taking site `j` from the block of `j`'s partition at the rank of `j` inside it rebuilds the
+row. -/
+theorem split_reinterleave_id (rows : SRows) (L : Int) (ps : PartSet) (blocks : List SRows)
+    (hr : Rect rows L) (hinv : PartInv ps) (htot : ∀ p ∈ ps.parts, p ≠ -1)
+    (h : split rows L ps = .ok blocks) :
+    blocks.length = ps.names.length ∧
+    (∀ b ∈ blocks, b = [] ∨ b.map Prod.fst = rows.map Prod.fst) ∧
+    (∀ (ri : Nat) (hri : ri < rows.length),
+      reinterleaveSeq ps.parts (blocks.map fun b => (b.getD ri ("", [])).2) = (rows[ri]).2) ∧
+    ((List.range rows.length).map fun ri =>
+      ((rows.getD ri ("", [])).1, reinterleaveSeq ps.parts (blocks.map fun b => (b.getD ri ("", [])).2))) = rows := by
+  obtain ⟨a, b, c⟩ := Gv.Proofs.SitesSplit.split_reinterleave rows L ps blocks hr hinv htot h
+  exact ⟨a, b, c, Gv.Proofs.SitesSplit.split_reinterleave_all rows L ps blocks hr hinv htot h⟩
+
+/-- **Every block of `Split` is the selection of its partition's sites, in increasing order, names and
+row order unchanged**: block `pi` is what `SelectSites` returns for the sites `j` with
+`parts[j] = pi` (the empty alignment when the partition has no site). -/
+theorem split_blocks (rows : SRows) (L : Int) (ps : PartSet) (blocks : List SRows) (hr : Rect rows L)
+    (hinv : PartInv ps) (h : split rows L ps = .ok blocks) (pi : Nat) (hpi : pi < ps.names.length) :
+    let cols := Gv.Proofs.SitesSplit.colsOf ps.parts pi
+    cols.Pairwise (· < ·) ∧ (∀ j, j ∈ cols ↔ j < ps.parts.length ∧ ps.parts.getD j (-1) = (pi : Int)) ∧
+    blocks[pi]? = some (if cols = [] then [] else rows.map fun r => (r.1, cols.map fun j => r.2.getD j 0)) ∧
+    (cols ≠ [] → selectSites rows L (cols.map fun (j : Nat) => (j : Int)) = .ok (blocks.getD pi [])) := by
+  obtain ⟨_, hlen, hb⟩ := Gv.Proofs.SitesSplit.split_eval rows L ps blocks h
+  have hmem : ∀ j, j ∈ Gv.Proofs.SitesSplit.colsOf ps.parts pi ↔ j < ps.parts.length ∧ ps.parts.getD j (-1) = (pi : Int) := by
+    intro j
+    simp only [Gv.Proofs.SitesSplit.colsOf, List.mem_filter, List.mem_range, beq_iff_eq]
+    rfl
+  have hblk : blocks[pi]? = some (if Gv.Proofs.SitesSplit.colsOf ps.parts pi = [] then [] else
+      rows.map fun r => (r.1, (Gv.Proofs.SitesSplit.colsOf ps.parts pi).map fun j => r.2.getD j 0)) := by
+    rw [hb, List.getElem?_map, List.getElem?_range hpi]
+    simp only [Option.map_some, List.isEmpty_iff]
+  refine ⟨(List.pairwise_lt_range).sublist List.filter_sublist, hmem, hblk, ?_⟩
+  intro hne
+  rw [List.getD_eq_getElem?_getD, hblk, if_neg hne]
+  simp only [Option.getD_some]
+  have hsites : ∀ s ∈ (Gv.Proofs.SitesSplit.colsOf ps.parts pi).map (fun (j : Nat) => (j : Int)), 0 ≤ s ∧ s < L := by
+    intro s hs
+    obtain ⟨j, hj, rfl⟩ := List.mem_map.mp hs
+    have := ((hmem j).mp hj).1
+    have := hinv.1
+    omega
+  obtain ⟨r, hr2⟩ := (selectSites_ok_iff rows L hr _).mpr hsites
+  rw [hr2, (selectSites_rows rows L _ r hr2).1]
+  simp [List.map_map, Function.comp_def]
+
+/-- `Split` never panics and fails exactly when there are fewer than two partitions or the table was
+built for another length -/
+theorem split_ok_iff (rows : SRows) (L : Int) (ps : PartSet) :
+    (∃ b, split rows L ps = .ok b) ↔ (1 < ps.names.length ∧ ps.length = L) := by
+  unfold split
+  constructor
+  · rintro ⟨b, h⟩
+    split at h
+    · cases h
+    · split at h
+      · cases h
+      · rename_i h1 h2
+        exact ⟨by omega, by simpa using h2⟩
+  · rintro ⟨h1, h2⟩
+    have c1 : ¬ (ps.names.length ≤ 1) := by omega
+    have c2 : ¬ ((ps.length != L) = true) := by simp [h2]
+    rw [if_neg c1, if_neg c2]
+    exact ⟨_, rfl⟩
+
 /-! ## non-vacuity -/
 
 example : Rect [("a", [65, 45, 67]), ("b", [45, 45, 71])] 3 := Or.inr ⟨by simp, by omega, by simp⟩
@@ -587,5 +751,21 @@ example : subAlign [("a", [65, 45, 67])] 3 1 2 = .ok [("a", [45, 67])] := by dec
 example : selectSites [("a", [65, 45, 67])] 3 [3] = .err := by decide
 example : (addRange (newPartSet 6) "p" 2 5 9223372036854775807).2 = .ok () := by decide
 example : refCoordinates [("ref", [45, 65, 67, 45, 45, 71, 84, 45])] "ref" 1 2 = .ok (2, 4, false) := by decide
+example : refSites [("ref", [45, 65, 67, 45, 45, 71, 84, 45])] 8 "ref" [2, 0] = .ok [1, 5] := by decide
+example : refSites [("ref", [45, 65, 67, 45, 45, 71, 84, 45])] 8 "ref" [4] = .err := by decide
+-- the contiguous request 1,2 spans the window (2, 4) of `refCoordinates … 1 2` above
+example : refSites [("ref", [45, 65, 67, 45, 45, 71, 84, 45])] 8 "ref" (window 1 2) = .ok [2, 5] := by decide
+example : inverseCoordinates 8 2 4 = .ok ([0, 6], [2, 2]) ∧ inversePositions 8 (window 2 4) = .ok [0, 1, 6, 7] := by decide
+example : transpose [("a", [65, 67, 45]), ("b", [71, 84, 65])] 3 = [("0", [65, 71]), ("1", [67, 84]), ("2", [45, 65])] := by decide
+example : (transpose (transpose [("a", [65, 67, 45]), ("b", [71, 84, 65])] 3) 2).map Prod.snd = [[65, 67, 45], [71, 84, 65]] := by decide
+
+/-- a codon partition of six sites, built with three `AddRange` calls of modulo 3 -/
+def codon6 : PartSet := (addRange (addRange (addRange (newPartSet 6) "p1" 0 5 3).1 "p2" 1 5 3).1 "p3" 2 5 3).1
+example : codon6.parts = [0, 1, 2, 0, 1, 2] := by decide
+example : PartInv codon6 := addRange_partInv _ (addRange_partInv _ (addRange_partInv _ (newPartSet_partInv 6) ..) ..) ..
+example : ∀ p ∈ codon6.parts, p ≠ -1 := by decide
+example : split [("a", [65, 67, 71, 84, 45, 78]), ("b", [84, 84, 45, 45, 67, 67])] 6 codon6 =
+    .ok [[("a", [65, 84]), ("b", [84, 45])], [("a", [67, 45]), ("b", [84, 67])], [("a", [71, 78]), ("b", [45, 67])]] := by decide
+example : reinterleaveSeq codon6.parts [[65, 84], [67, 45], [71, 78]] = [65, 67, 71, 84, 45, 78] := by decide
 
 end Gv.Props.C04
